@@ -85,12 +85,13 @@ RULES = {
     "R36": _get(IR, "r36_matmul_index_maps"),
     "R37": _get(IR, "r37_conv_index_maps"),
     "R38": _get(IR, "r38_matmul_shapes"),
+    "R39": _get(IR, "r39_roll_adjoint_of_unroll"),
 }
 
 # property -> rules (DESIGN.md section 4)
 PROPERTY_RULES = {
     "C01": ["R9", "R8", "R5", "R27", "R6", "R24", "R11", "R25", "R23", "R26"],
-    "C02": ["R12", "R13", "R15", "R9", "R33", "R29", "R31", "R30", "R32"],
+    "C02": ["R12", "R13", "R15", "R9", "R33", "R29", "R31", "R30", "R32", "R39"],
     "C03": ["R11", "R21"],
     "C05": ["R36", "R38"],
     "C06": ["R37", "R30"],
@@ -128,7 +129,7 @@ EXPLANATION = {
            "and no engine branch reads adjoint values (R26). "
            "Does NOT decide the numeric value of any gradient.",
     "C02": "Clause-level static verdict over every built-in backward closure: every value-relevant scalar parameter reaches the "
-           "derivative (R12), each slot is linear-homogeneous in the incoming adjoint (R13), adjoint scatters accumulate (R15), the matrix product's deltas have their operand's shape under all four transposition assignments (R29, a shape type system), a single-operand sliced_op call slices its operand along the operand's own shape — the adjoint has the constructor's output dimensions with the flattened dimensions collapsed (R32, decides 'reductions over several dimensions' as far as forward / backward shape agreement goes), one "
+           "derivative (R12), each slot is linear-homogeneous in the incoming adjoint (R13), adjoint scatters accumulate (R15), the matrix product's deltas have their operand's shape under all four transposition assignments (R29, a shape type system), the routine used as the derivative of im2col uses exactly im2col's index pairs, transposed (R39: div / mod decoding simplified symbolically under the loop ranges), a single-operand sliced_op call slices its operand along the operand's own shape — the adjoint has the constructor's output dimensions with the flattened dimensions collapsed (R32, decides 'reductions over several dimensions' as far as forward / backward shape agreement goes), one "
            "slot per operand (R9). Does NOT decide that the Jacobian is the right one.",
     "C03": "Clause-level static verdict: shape typestate (R11) proves that every value entering a pending-delta or gradient slot "
            "has been reduced to the owner's dimensions, for the first and every later contribution; R21 adds that the optimizer "
